@@ -80,19 +80,9 @@ fn all_chars(r: &VarRecord) -> Vec<(bool, bool, char)> {
 /// Known-defect classes a (normalised) record falls in, most specific first.
 fn record_classes(r: &VarRecord) -> Vec<&'static str> {
     let mut c = Vec::new();
-    if r.info.iter().any(|(_, v)| v.is_none()) {
-        c.push("info-missing-value");
-    }
     let gt_col = r.format.first().map(|k| k == "GT").unwrap_or(false);
     if gt_col && r.samples.iter().any(|row| row.first().map(|v| v.is_none()).unwrap_or(true)) {
         c.push("gt-missing");
-    }
-    let max_ploidy = gts(r).map(|g| g.len()).max().unwrap_or(0);
-    if gts(r).any(|g| g.len() >= 2 && g.len() < max_ploidy) {
-        c.push("gt-ragged");
-    }
-    if gts(r).any(|g| g.iter().any(|a| a.0.is_none() && a.1)) {
-        c.push("gt-phased-missing");
     }
     for (ki, key) in r.format.iter().enumerate() {
         if key != "GT" && r.samples.iter().all(|row| row.get(ki).map(|v| v.is_none()).unwrap_or(true)) {
@@ -111,9 +101,6 @@ fn record_classes(r: &VarRecord) -> Vec<&'static str> {
     }
     if all_chars(r).iter().any(|(_, _, ch)| !ch.is_ascii()) {
         c.push("character-non-ascii");
-    }
-    if r.info.iter().any(|(_, v)| matches!(v, Some(InfoValue::IntArray(a)) if a.len() == 1 && a[0].map(|x| !(-120..=127).contains(&x)).unwrap_or(false))) {
-        c.push("info-int-array-len1-wide");
     }
     c
 }
@@ -472,7 +459,7 @@ fn strategy(tier: Tier) -> BoxedStrategy<Case> {
 }
 
 /// Known-defect classes that only affect the lazy `bcf::Record` path.
-const LAZY_ONLY: [&str; 3] = ["string-array-percent-escape", "info-int-array-len1-wide", "character-non-ascii"];
+const LAZY_ONLY: [&str; 2] = ["string-array-percent-escape", "character-non-ascii"];
 
 /// The signature of a discrepancy on a record: the record's known-defect class when it is in one
 /// (one signature per class — what exactly goes wrong is in the message), generic otherwise.
@@ -853,6 +840,11 @@ fn check(case: &Case) -> Verdict {
         l(gts(want).any(|g| g.iter().any(|a| a.0.is_none())), "gt-missing-allele");
         l(gts(want).any(|g| g.len() >= 2 && g[0].1 != implicit_first_phasing(g)), "gt-explicit-first-phasing");
         l(gts(want).any(|g| g.iter().skip(1).any(|a| a.1)), "gt-phased");
+        let max_ploidy = gts(want).map(|g| g.len()).max().unwrap_or(0);
+        l(gts(want).any(|g| g.len() >= 2 && g.len() < max_ploidy), "gt-ragged(2<=ploidy<max)");
+        l(gts(want).any(|g| g.iter().any(|a| a.0.is_none() && a.1)), "gt-phased-missing-allele");
+        l(want.info.iter().any(|(_, v)| v.is_none()), "info-value-missing(KEY=.)");
+        l(want.info.iter().any(|(_, v)| matches!(v, Some(InfoValue::IntArray(a)) if a.len() == 1 && a[0].map(|x| !(-120..=127).contains(&x)).unwrap_or(false))), "info-int-array-len1-int16/32");
         l(want.filters.len() >= 2, "filters>=2");
         l(want.filters == ["PASS"], "filter-pass");
         l(want.filters.is_empty(), "filter-missing");
@@ -866,16 +858,12 @@ fn check(case: &Case) -> Verdict {
         l(want.alts.len() >= 2, "alt>=2");
         for c in cls {
             l(true, match *c {
-                "info-missing-value" => "hazard:info-missing-value",
                 "gt-missing" => "hazard:gt-missing",
-                "gt-ragged" => "hazard:gt-ragged",
-                "gt-phased-missing" => "hazard:gt-phased-missing",
                 "format-column-all-missing" => "hazard:format-column-all-missing",
                 "string-array-element-with-comma" => "hazard:string-array-element-with-comma",
                 "dot-or-comma-value" => "hazard:dot-or-comma-value",
                 "character-non-ascii" => "hazard:character-non-ascii",
-                "string-array-percent-escape" => "hazard:string-array-percent-escape",
-                _ => "hazard:info-int-array-len1-wide",
+                _ => "hazard:string-array-percent-escape",
             });
         }
     }
@@ -968,12 +956,23 @@ fn reject_strategy(tier: Tier) -> BoxedStrategy<RejectCase> {
     (
         var::document(tier, &mode),
         any::<u16>(),
-        // the float kinds are all known findings on the pinned tree: keep them occasional
-        prop_oneof![
-            16 => proptest::sample::select(vec![InfoInt, InfoIntArray, FormatInt, FormatIntArray]),
-            15 => proptest::sample::select(vec![UndeclaredInfoKey, UndeclaredFilter, UndeclaredFormatKey, UndeclaredContig, PosBeyondInt32, GtHighAlleleIndex]),
-            4 => proptest::sample::select(vec![InfoFloat, InfoFloatArray, FormatFloat, FormatFloatArray, Qual]),
-        ],
+        proptest::sample::select(vec![
+            InfoInt,
+            InfoIntArray,
+            FormatInt,
+            FormatIntArray,
+            InfoFloat,
+            InfoFloatArray,
+            FormatFloat,
+            FormatFloatArray,
+            Qual,
+            UndeclaredInfoKey,
+            UndeclaredFilter,
+            UndeclaredFormatKey,
+            UndeclaredContig,
+            PosBeyondInt32,
+            GtHighAlleleIndex,
+        ]),
         0u8..8,
         any::<u16>(),
         proptest::collection::vec(prop_oneof![-100i32..100, proptest::sample::select(vec![127, 128, -120, -121, 32767, 32768, 70000])], 3),
@@ -1008,6 +1007,25 @@ fn check_reject(c: &RejectCase) -> Verdict {
     }
     if c.kind == GtHighAlleleIndex && hm.format("GT").is_none() {
         hm.formats.insert(0, def("GT", Num::Count(1), Ty::String));
+    }
+    // a dictionary carries IDX on all of its entries or on none: give the host definitions fresh
+    // indices when the generated header has IDX
+    if has_idx(&c.doc.header) {
+        let mut next = expected_string_indices(&c.doc.header).0.iter().map(|(_, i)| *i).max().unwrap_or(0) + 1;
+        let mut assigned: Vec<(String, u32)> = Vec::new();
+        for d in hm.infos.iter_mut().chain(hm.formats.iter_mut()) {
+            if d.idx.is_none() {
+                let i = match assigned.iter().find(|(id, _)| id == &d.id) {
+                    Some((_, i)) => *i,
+                    None => {
+                        assigned.push((d.id.clone(), next));
+                        next += 1;
+                        next - 1
+                    }
+                };
+                d.idx = Some(i);
+            }
+        }
     }
     let mut records = c.doc.records.clone();
     if records.is_empty() {
